@@ -198,6 +198,23 @@ CHECKS['C05'] = dict(category='proof', design_ref='DESIGN.md §7 C05, §8 B-C05-
           "quantity; with a container solvent the depleted container is a uniform remainder and nothing is lost; a "
           "displayed (rounded) value never drives a state change; only ValueError can be raised."))
 
+CHECKS['C08'] = dict(category='proof', design_ref='DESIGN.md §7 C08, Appendix D',
+    technique='contract-based deductive verification: induction over the step loop of Recipe.bake — the real loop body is executed for one step of each kind on an arbitrary (symbolic) recipe state; direct operations are used modularly as events; dataflow obligations resolve / same-op / store (the loop invariant SIM)',
+    note=COMMON_NOTE + (" The direct container/plate operations are uninterpreted events here (their behaviour is "
+                        "C01..C12's business); what is proved is which objects bake hands to them and where it stores "
+                        "the results. Arbitrary prior state = arbitrary current-state objects for the involved names, "
+                        "symbolic dom(results)/used/stages/number of earlier steps; plates of shape 1x2 / 2x2. fill_to on a "
+                        "container or whole plate is applied twice by bake (accepted by the idempotence of fill_to, which "
+                        "follows from its C11 contract). Known finding: fill_to on a slice."),
+    text=("For each of 24 step kinds (transfer between containers, plates, slices, sub-slices, same plate; "
+          "create_container with and without contents; create_solution with substance/container solvent and with a "
+          "solute list; create_solution_from; remove on container/plate/slice/sub-slice/class; dilute with and without "
+          "rename; fill_to on container/plate/slice): adding the step performs no operation; bake performs exactly the "
+          "step's operation, every container/plate operand is results[<its name>] at that moment (a slice: the same "
+          "selector on the current plate, never the declaration-time object), the remaining operands are the step's, "
+          "the outcomes are stored under the operands' names and nothing else changes; a refused step-adding call "
+          "leaves no step behind; uses() stores deep copies. By induction over the steps bake equals the eager fold."))
+
 NOT_YET = "check not built yet in this round (under construction; not claimed)"
 NOT_APPLICABLE = {}
 
